@@ -2,12 +2,23 @@
   C03 — parameter-based retrace, for both the mapper built with the parameter index
   (PG/Props/C03m.lean, all record lists) and the cache reader (through C02).
 -/
-import PG.Props.C02
+import PG.Props.C01
 namespace PG
 
 theorem C03_cache (recs : List Record) (hr : ReprR recs) (hs : (Tables.build recs).Small)
     (c : Cache) (hc : Cache.parse (Cache.write recs) = .ok c) (q : Frame) (p : Bytes)
     (hq : q.params = some p) : c.remapFrame q = SpecR.framesByParams recs q p := by
   rw [C02_frame_params recs hr hs c hc q p hq, C03_mapper recs q p hq]
+
+/-- at the level of mapping bytes printed from the grammar: parameter-based retrace of the
+    mapper (built with the parameter index) is the specification applied to the printed lines,
+    whatever the line terminators -/
+theorem C03_file (ls : List (Line × Bytes)) (q : Frame) (p : Bytes) (hq : q.params = some p)
+    (h : ∀ x ∈ ls, x.1.WF ∧ x.2 ≠ [] ∧ ∀ b ∈ x.2, isNewline b = true) :
+    (Mapper.ofBytes ((ls.map (fun x => x.1.print ++ x.2)).flatten) true).remapFrame q =
+      SpecR.framesByParams (ls.map (fun x => x.1.toRecord)) q p := by
+  unfold Mapper.ofBytes
+  rw [okRecs_printed ls h]
+  exact C03_mapper _ q p hq
 
 end PG
